@@ -330,6 +330,25 @@ def check_keys_q(d1: int, th1: int, d2: int, th2: int, d3: int, th3: int, chunk:
     return keys_ok(schedule, chunk, list(NH), STORE, UPFRONT)
 
 
+def _schedule4(d1, th1, d2, th2, d3, th3, d4, th4):
+    return [(ty, d, th) for ty, (d, th) in zip(TYPES, [(d1, th1), (d2, th2), (d3, th3), (d4, th4)])]
+
+
+def check_all4(d1: int, th1: int, d2: int, th2: int, d3: int, th3: int, d4: int, th4: int, chunk: int) -> bool:
+    """
+    four epochs after the initial one (TYPES has four entries): lifecycle, stored chains and key terms
+    pre: 1 <= d1 <= 2 and 1 <= d2 <= 2 and 1 <= d3 <= 2 and 1 <= d4 <= 2
+    pre: 1 <= th1 <= d1 and 1 <= th2 <= d2 and 1 <= th3 <= d3 and 1 <= th4 <= d4
+    pre: 1 <= chunk <= 2 and d1 % chunk == 0 and d2 % chunk == 0 and d3 % chunk == 0 and d4 % chunk == 0
+    post: _ == True
+    """
+    schedule = _schedule4(d1, th1, d2, th2, d3, th3, d4, th4)
+    if any(ty == 4 and d % th != 0 for ty, d, th in schedule):
+        return True
+    up = min(UPFRONT, 4)
+    return lifecycle_ok(schedule, chunk, list(NH), STORE, up) and chains_ok(schedule, chunk, list(NH), STORE, up) and keys_ok(schedule, chunk, list(NH), STORE, up)
+
+
 if __name__ == "__main__":
     e, log = run([(1, 2, 1), (2, 4, 2), (4, 2, 1), (4, 2, 2)], 2, [True, False])
     r = e.get_results()
